@@ -145,7 +145,15 @@ pub fn run_script_case(rt: &Runtime<NoCtx>, case: &Case) -> Option<Outcome> {
     }
     if live1 != live0 || tz1 != tz0 {
         return Some(Outcome::fail(
-            if live1 > live0 || tz1 > tz0 { "ownership:leak-tracked" } else { "ownership:overdrop-tracked" },
+            format!(
+                "{}:{}",
+                if live1 > live0 || tz1 > tz0 { "ownership:leak-tracked" } else { "ownership:overdrop-tracked" },
+                match (live1 != live0, tz1 != tz0) {
+                    (true, true) => "Tr+Tz",
+                    (true, false) => "Tr",
+                    _ => "Tz",
+                }
+            ),
             format!("tracked live before {live0} Tr / {tz0} Tz, after {live1} Tr / {tz1} Tz\n{src}"),
         ));
     }
@@ -357,7 +365,15 @@ impl Shim<'_> {
             }
             if matches!(self.kind, Kind::C03 | Kind::C02 | Kind::C08) && (live1 != live0 || tz1 != tz0) {
                 let mut f = Outcome::fail(
-                    if live1 > live0 || tz1 > tz0 { "ownership:leak-tracked" } else { "ownership:overdrop-tracked" },
+                    format!(
+                        "{}:{}",
+                        if live1 > live0 || tz1 > tz0 { "ownership:leak-tracked" } else { "ownership:overdrop-tracked" },
+                        match (live1 != live0, tz1 != tz0) {
+                            (true, true) => "Tr+Tz",
+                            (true, false) => "Tr",
+                            _ => "Tz",
+                        }
+                    ),
                     format!(
                         "tracked values live before the call: {live0} Tr / {tz0} Tz, after the call and dropping the result: {live1} Tr / {tz1} Tz\n{}",
                         ctx()
